@@ -63,6 +63,19 @@ for pid in sorted(seeds):
         v = m['checker_verdict']
         out.append(f"| {name} | {short(m.get('summary'), 170)} | {short(str(v.get('detected')), 230)} | `{short(str(v.get('by')), 150)}` |")
 out.append('')
+blind = after = nodet = 0
+for pid in seeds:
+    for name, m in seeds[pid]:
+        v = m['checker_verdict']
+        det = str(v.get('detected'))
+        t = (det + ' ' + str(v.get('by'))).lower()
+        if not det.startswith('yes'):
+            nodet += 1
+        elif re.search(r'missed|added after|written after|rule added|after this seed|undecided|first version', t):
+            after += 1
+        else:
+            blind += 1
+out.append(f'Tally: {blind + after + nodet} kept changes — {blind} reported blind, {after} reported only after a rule was added or repaired, {nodet} not detected by the property they were written for.\n')
 
 txt = '\n'.join(out)
 p = f'{V}/DESIGN.md'
